@@ -19,6 +19,18 @@ def _inplace(_got, args):
 def _cases(prop):
     # pylint: disable=too-many-locals,import-outside-toplevel
     pts = [(x, y) for x in (-1, 0, 2, 4) for y in (-1, 1, 3, 5)]
+    if prop in ("C01", "C03"):
+        from plotink import ebb_calc, ebb_motion
+        moves = [(1000, 10, 5, 0), (-7, 0, 9, 2147483647), (490123456, 0, 20, 1073741823),
+                 (3, 1, 300, "clear"), (-2, -3, 1, "clear")]
+        out = [(ebb_calc.move_dist_lt, m, None) for m in moves]
+        out += [(ebb_motion.moveDistLMA, m, None) for m in moves]
+        out += [(ebb_motion.moveDistLM, m[:3], None) for m in moves]
+        out += [(ebb_calc.calculate_lm, (3, 1000000, 10, 0), None),
+                (ebb_calc.calculate_lm, (5, -400000000, 0, "clear"), None),
+                (ebb_motion.moveTimeLM, (1000000, 3, 10), None),
+                (ebb_motion.moveTimeLM, (-400000000, 5, 0), None)]
+        return out
     if prop == "C08":
         rect = [[0, 0], [3, 3]]
         return [(_pu().clip_segment, ([list(a), list(b)], rect), None)
@@ -165,7 +177,7 @@ def _plain(entry, variant):
 
 
 VARIANTS = ("mixed", "decimal:prec6", "decimal:round_down", "decimal:traps_inexact",
-            "result_edited")
+            "result_edited", "answer_kept", "warnings_error")
 
 
 def _scribble(obj):
@@ -210,9 +222,50 @@ def _edited_result(entry):
     return None
 
 
-def _run_variant(entry, variant):
+def _kept_answer(entry, other):
+    """The caller keeps an answer (by reference) while it makes the next, different call: the
+    kept answer must not change under its hands (a result buffer reused between calls)."""
+    import copy                             # pylint: disable=import-outside-toplevel
+    if entry[0] == "pair" or other[0] == "pair" or entry[2] is not None:
+        return None
+    func, args, _obs = entry
+    try:
+        kept = func(*copy.deepcopy(list(args)))
+        snapshot = copy.deepcopy(kept)
+        other[0](*copy.deepcopy(list(other[1])))
+    except Exception:                       # pylint: disable=broad-except
+        return None
+    if _norm(kept) != _norm(snapshot) and repr(_norm(kept)) != repr(_norm(snapshot)):
+        return (f"{getattr(func, '__name__', 'call')}{tuple(args)!r} answered {snapshot!r}; after "
+                f"the next call, {getattr(other[0], '__name__', 'call')}{tuple(other[1])!r}, the "
+                f"answer the caller still holds reads {kept!r}")[:700]
+    return None
+
+
+def _warnings_as_errors(entry):
+    """The same positional call with the interpreter's warnings turned into errors (python -W
+    error, pytest's filterwarnings = error): a library that starts to *warn* must not thereby
+    stop to *answer*."""
+    import warnings                         # pylint: disable=import-outside-toplevel
+    base = _plain(entry, "plain")
+    with warnings.catch_warnings():
+        warnings.simplefilter("error")
+        other = _plain(entry, "plain")
+    if base != other and repr(base) != repr(other):
+        name = getattr(entry[1] if entry[0] == "pair" else entry[0], "__name__", "call")
+        args = entry[2] if entry[0] == "pair" else entry[1]
+        return (f"{name}{tuple(args)!r} under warnings-as-errors gives {other!r}; otherwise "
+                f"{base!r}")[:700]
+    return None
+
+
+def _run_variant(entry, variant, follower=None):
     if variant == "result_edited":
         return _edited_result(entry)
+    if variant == "answer_kept":
+        return _kept_answer(entry, follower) if follower is not None else None
+    if variant == "warnings_error":
+        return _warnings_as_errors(entry)
     base, other = _plain(entry, "plain"), _plain(entry, variant)
     if base != other and repr(base) != repr(other):
         name = getattr(entry[1] if entry[0] == "pair" else entry[0], "__name__", "call")
@@ -225,14 +278,16 @@ def _run_variant(entry, variant):
 
 def explore(prop):
     part = core.Part()
-    for number, entry in enumerate(_cases(prop)):
+    cases = _cases(prop)
+    for number, entry in enumerate(cases):
+        follower = cases[(number + 1) % len(cases)]
         msg = _run(entry)
         part.count("call_form_cases")
         if msg:
             part.violation(f"callform:{prop}:{number}", msg,
                            {"kind": "callform", "prop": prop, "number": number})
         for variant in VARIANTS:
-            msg = _run_variant(entry, variant)
+            msg = _run_variant(entry, variant, follower)
             part.count("call_form_cases")
             if msg:
                 part.violation(f"callform:{prop}:{number}:{variant}", msg,
@@ -242,6 +297,8 @@ def explore(prop):
 
 
 def replay(case):
-    entry = _cases(case["prop"])[case["number"]]
-    msg = _run_variant(entry, case["variant"]) if case.get("variant") else _run(entry)
+    cases = _cases(case["prop"])
+    entry = cases[case["number"]]
+    follower = cases[(case["number"] + 1) % len(cases)]
+    msg = _run_variant(entry, case["variant"], follower) if case.get("variant") else _run(entry)
     return [msg] if msg else []
